@@ -46,6 +46,7 @@ int sqfs_writer_init(sqfs_writer_t *sqfs, const sqfs_writer_cfg_t *wrcfg)
 {
 	sqfs_block_processor_desc_t blkdesc;
 	sqfs_compressor_config_t cfg;
+	sqfs_file_handle_t hnd;
 	fstree_defaults_t fsd;
 	int ret, flags;
 
@@ -57,10 +58,20 @@ int sqfs_writer_init(sqfs_writer_t *sqfs, const sqfs_writer_cfg_t *wrcfg)
 		return -1;
 	}
 
-	ret = sqfs_file_open(&sqfs->outfile, wrcfg->filename, wrcfg->outmode);
+	/* Open in two steps: when wrapping the handle fails, the output file
+	   already exists and has to be removed again. */
+	ret = sqfs_native_file_open(&hnd, wrcfg->filename, wrcfg->outmode);
 	if (ret) {
 		sqfs_perror(wrcfg->filename, "open", ret);
 		return -1;
+	}
+
+	ret = sqfs_file_open_handle(&sqfs->outfile, wrcfg->filename,
+				    hnd, wrcfg->outmode);
+	if (ret) {
+		sqfs_perror(wrcfg->filename, "open", ret);
+		sqfs_native_file_close(hnd);
+		goto fail_unlink;
 	}
 
 	if (parse_fstree_defaults(&fsd, wrcfg->fs_defaults))
@@ -217,6 +228,7 @@ fail_fs:
 	fstree_cleanup(&sqfs->fs);
 fail_file:
 	sqfs_drop(sqfs->outfile);
+fail_unlink:
 	/* the output file was created (or truncated) above, a failed run must
 	   not leave it behind */
 #if defined(_WIN32) || defined(__WINDOWS__)
